@@ -29,12 +29,13 @@ echo "$ID: demo_with_change_exit=$d1 suite_with_change_exit=$s1 demo_without_cha
 if [ $d1 -ne 0 ] && [ $s1 -eq 0 ] && [ $d2 -eq 0 ]; then
   mkdir -p /verif/seeded/$ID
   cp $M/patch.diff $M/demo_test.go.txt /verif/seeded/$ID/
-  python3 - <<PY
-import json
-m=json.load(open('$M/meta.json'))
-m['confirmed_by_me']={'base_commit':'$(git -C /repo rev-parse --short HEAD)','demo_file':'$dest','demo_cmd':'''$democmd''',
- 'ran':['git apply patch.diff','go build ./...','demo with change -> exit $d1 (fails)','go test -vet=off -count=1 -timeout 240s ./... with change (in a private network namespace) -> pass','demo without change -> exit $d2 (passes)']}
-json.dump(m,open('/verif/seeded/$ID/meta.json','w'),indent=1)
+  D1=$d1 S1=$s1 D2=$d2 DEST="$dest" DEMOCMD="$democmd" SRC="$M" ID="$ID" BASE="$(git -C /repo rev-parse --short HEAD)" python3 - <<'PY'
+import json, os
+e=os.environ
+m=json.load(open(e['SRC']+'/meta.json'))
+m['confirmed_by_me']={'base_commit':e['BASE'],'demo_file':e['DEST'],'demo_cmd':e['DEMOCMD'],
+ 'ran':['git apply patch.diff','go build ./...','demo with change -> exit %s (fails)' % e['D1'],'go test -vet=off -count=1 -timeout 240s ./... with change (in a private network namespace, up to 3 tries because of the load-flaky client tests) -> pass','demo without change -> exit %s (passes)' % e['D2']]}
+json.dump(m,open('/verif/seeded/'+e['ID']+'/meta.json','w'),indent=1)
 PY
   echo "$ID: CONFIRMED"
 else
